@@ -296,8 +296,12 @@ def resume_via(env, g, inp, via):
     box = {}
 
     def go():
-        env.pending_base = aid(env, current_action())
+        before = aid(env, current_action())
+        env.pending_base = before
         box["out"] = do_resume(env, g, inp)[0]
+        if via is not None:
+            # what the resumer's own Context holds afterwards (a copied / empty Context or another thread: not the driver's)
+            env.foreign.append(dict(via=via, inp=inp[0], before=before, after=aid(env, current_action())))
 
     try:
         if via is None:
@@ -434,6 +438,7 @@ def _run_real(case, wrapped):
     env.tbs = []
     env.V = make_pool(env)
     env.ids, env.keep, env.obs, env.events, env.nested = {}, [], [], [], []
+    env.foreign = []
     env.pending_base = None
     env.st = [dict(acts=[], last=None) for _ in case["gens"]]
     fn = body
@@ -484,7 +489,7 @@ def _run_real(case, wrapped):
                 stack.pop()[0].__exit__(None, None, None)
             except Exception:  # noqa
                 pass
-    res = dict(steps=steps, obs=list(env.obs), events=list(env.events), nested=list(env.nested), tbs=list(env.tbs))
+    res = dict(steps=steps, obs=list(env.obs), events=list(env.events), nested=list(env.nested), tbs=list(env.tbs), foreign=list(env.foreign))
     # finish every generator now (a body may ignore GeneratorExit a few times), so that nothing is
     # left to the garbage collector; not part of the observation
     for g, code in zip(env.gens, case["gens"]):
@@ -557,6 +562,23 @@ def oracle(ctx, case, plain, wrapped):
             ctx.violation("current_action() of generator %d changed from %s to %s by resuming decorated generator %d from its body" % (n["by"], n["before"], n["after"], n["gen"]),
                           c, key={"component": "nested-driver-context"})
             break
+    # (2b) a resumption made from another Context leaves in that Context either what was current there or an action of a
+    # generator's own that is now open in it (plain generators do that) - never somebody else's action, such as the one
+    # that was current where the block being left had been entered
+    own_ids = {ins[1] for code in case["gens"] for ins in code if ins[0] in ("enter", "wenter")}
+    for which, run in (("plain", plain), ("decorated", wrapped)):
+        for f in run.get("foreign", []):
+            a, b = f["before"], f["after"]
+            if which == "decorated" and a != b:
+                ok = False
+                ctx.violation("a decorated generator resumed (%s) from another Context (%s) changed that Context's current action from %s to %s"
+                              % (f["inp"], f["via"], a, b), c, key={"component": "foreign-context"})
+                break
+            if which == "plain" and a != b and b not in own_ids:
+                ok = False
+                ctx.violation("a generator resumed (%s) from another Context (%s) left there the current action %s (it was %s): neither what "
+                              "was current there nor an action of the generator's own" % (f["inp"], f["via"], b, a), c, key={"component": "foreign-context"})
+                break
     # (3) inside the body: own innermost action, else the one current where it was first resumed
     for o in wrapped["obs"]:
         if o["seen"] != o["expected"]:
@@ -610,7 +632,8 @@ def evaluate(ctx, cases, tag):
                  + (["nested"] if wrapped.get("nested") else []))
         ctx.count("resumptions", n=sum(1 for s in c["script"] if s[0] == "resume"))
         ctx.count("observations", n=len(wrapped.get("obs", [])))
-        oracle(ctx, c, plain_ref, wrapped)
+        # (the undecorated run *with* its resumptions from other Contexts is still judged for what it leaves in those Contexts)
+        oracle(ctx, c, dict(plain_ref, foreign=plain.get("foreign", [])), wrapped)
         if "bad" in m_plain or "bad" in m_wrapped:
             ctx.broken_tie("correspondence:generator-model", "model rejected the case: %s" % (m_plain.get("bad") or m_wrapped.get("bad")), strip(c))
             continue
